@@ -1091,6 +1091,8 @@ def s_div(a, b):
         return _conc(np.true_divide, a, b)
     a = lift(a)
     b = lift(b)
+    if CTX is not None and getattr(CTX, "assume_nonzero_div", False) and not z3.is_rational_value(z3.simplify(b.r)):
+        CTX.assume(b.r != 0)        # stated assumption of the harness: symbolic divisors are non-zero
     bz = b.zero()
     az = a.zero()
     nan = b_or(a.nan, b.nan, b_and(a.inf(), b.inf()), b_and(az, bz))
